@@ -204,7 +204,7 @@ type encFrame struct {
 	masked                bool
 	key                   [4]byte
 	payload               []byte
-	lenClass              int // 0 minimal, 1 force 16-bit, 2 force 64-bit
+	lenClass              int     // 0 minimal, 1 force 16-bit, 2 force 64-bit
 	rawLen                *uint64 // override the length field (payload bytes still appended)
 }
 
